@@ -106,6 +106,16 @@ pub fn yield_point(label: &'static str) {
     }
 }
 
+/// Yields at the given label when dropped (a yield point *after* a statement, on every exit path)
+#[derive(Debug)]
+pub struct YieldOnDrop(pub &'static str);
+
+impl Drop for YieldOnDrop {
+    fn drop(&mut self) {
+        yield_point(self.0)
+    }
+}
+
 /// One `Poll::poll` call: the timeout asked for, the time to the next deadline, the wait used
 #[derive(Debug, Clone, Copy, PartialEq, Eq)]
 pub struct PollRecord {
